@@ -166,7 +166,8 @@ func NewRouterInfo(
 
 // createPublishedDate converts a time.Time to an I2P Date structure.
 func createPublishedDate(publishedTime time.Time) (*data.Date, error) {
-	millis := publishedTime.UnixNano() / int64(time.Millisecond)
+	// UnixMilli is exact for every instant; UnixNano overflows int64 after the year 2262
+	millis := publishedTime.UnixMilli()
 	dateBytes := make([]byte, data.DATE_SIZE)
 	binary.BigEndian.PutUint64(dateBytes, uint64(millis))
 	publishedDate, _, err := data.ReadDate(dateBytes)
